@@ -771,6 +771,20 @@ class M:
             # POSKeyError or, once a pack removed the un-creation's file,
             # writes a blob record without a file
             self.proxy_tainted = True
+        # an undo of one transaction whose blob was written again later
+        # with other bytes must be refused (the records of a blob are all
+        # alike: only the files tell the revisions apart)
+        lost = None
+        if len(tids) == 1:
+            for r in self.log.txn(tids[0]).recs:
+                cur = self.log.current(r.oid)
+                if r.kind == UNCREATE or not is_blob_rec(r) or cur is None \
+                        or cur[0] == tids[0] or cur[1].kind == UNCREATE:
+                    continue
+                mine = self.F.get((r.oid, tids[0]))
+                now = self.F.get((r.oid, cur[0]))
+                if mine is not None and now is not None and mine != now:
+                    lost = (r.oid, cur[0])
         A.begin()
         try:
             if len(tids) == 1:
@@ -800,6 +814,11 @@ class M:
                                                  str(e)[:80]))
             A.abort()
             return
+        if lost is not None:
+            self.flag('undo-loses-later-blob-bytes', 'the undo of %r was '
+                      'accepted although blob %r was written again, with '
+                      'other bytes, in %r: those bytes are no longer '
+                      'current' % (tids[0], lost[0], lost[1]))
         self.adopt()
         # rebuild the shadow from the committed root: an undo can remove a
         # blob from the root, and undoing that undo brings it back
